@@ -156,9 +156,11 @@ def mk_source(sched, kind, msgs):
     return sched.create_cold_observable(r) if kind == "cold" else sched.create_hot_observable(r)
 
 
-def run_test(case, build, sources=("msgs",)):
-    """TestScheduler run: `build(sched, *sources)` returns the observable under test; subscribed at 200, disposed at 1000.
-    Returns {"out": timed notifications, "subs": [[subscribe, unsubscribe] per source ...]} or {"raised": name}."""
+def _run_test_once(case, build, sources, subs_at, no_sched=False):
+    """one TestScheduler experiment: the observable is created at 100 and subscribed at every time in `subs_at` (the SAME
+    observable instance for all of them), everything disposed at 1000.  Mirrors TestScheduler.start (same scheduling order:
+    hot sources first, then create / subscribe / dispose actions)."""
+    from reactivex.scheduler import VirtualTimeScheduler
     from reactivex.testing import TestScheduler
 
     sched = TestScheduler()
@@ -171,21 +173,80 @@ def run_test(case, build, sources=("msgs",)):
             srcs.append(mk_source(sched, case["src"], case["msgs"]))
         else:
             srcs.append(mk_source(sched, spec["src"], spec["msgs"]))
+    box = {}
+    observers = [sched.create_observer() for _ in subs_at]
+    disps = []
+
+    def do_create(s, st):
+        box["o"] = build(sched, *srcs)
+
+    def mk_sub(obs):
+        def act(s, st):
+            if no_sched:
+                disps.append(box["o"].subscribe(obs))
+            else:
+                disps.append(box["o"].subscribe(obs, scheduler=sched))
+        return act
+
+    def do_dispose(s, st):
+        for d in disps:
+            d.dispose()
+
+    sched.schedule_absolute(100, do_create)
+    for t, obs in zip(subs_at, observers):
+        sched.schedule_absolute(t, mk_sub(obs))
+    sched.schedule_absolute(STOP, do_dispose)
     try:
         with guard():
-            res = sched.start(lambda: build(sched, *srcs))
+            VirtualTimeScheduler.start(sched)
     except Hang:
         return {"raised": "HANG"}
     except InjectedError as e:
         return {"raised": e.name}
     except Exception as e:  # noqa
         return {"raised": type(e).__name__}
-    return {"out": fw.messages_json(res.messages),
+    return {"outs": [fw.messages_json(o.messages) for o in observers],
             "subs": [fw.subs_json(s.subscriptions) if s is not None else None for s in srcs]}
 
 
+def run_test(case, build, sources=("msgs",), no_sched=False):
+    """TestScheduler run: `build(sched, *sources)` returns the observable under test; subscribed at 200, disposed at 1000.
+    With case["sub2"] the same observable instance is subscribed a second time at that instant ("out2"), and "solo2" is what
+    a fresh observable subscribed only once, at sub2, delivers (the per-subscription reference).
+    Returns {"out", "subs"[, "out2", "solo2"]} or {"raised": name}."""
+    t2 = case.get("sub2")
+    r = _run_test_once(case, build, sources, [SUB] + ([t2] if t2 is not None else []), no_sched)
+    if "raised" in r:
+        return r
+    res = {"out": r["outs"][0], "subs": r["subs"]}
+    if t2 is not None:
+        res["out2"] = r["outs"][1]
+        solo = _run_test_once(case, build, sources, [t2], no_sched)
+        res["solo2"] = solo["outs"][0] if "outs" in solo else solo
+    return res
+
+
 def out_of(io):
+    if isinstance(io, dict) and "out2" in io:
+        return {"out": io["out"], "out2": io["out2"]}
     return io["out"] if isinstance(io, dict) and "out" in io else io
+
+
+def second_sub_oracle(case, io):
+    """per-subscription state: a second (possibly overlapping) subscription of the same observable instance must get what a
+    fresh observable subscribed alone at that instant gets"""
+    if "out2" in io and fw.key(io["out2"]) != fw.key(io["solo2"]):
+        return (f"{case['op']}: second subscription at {case['sub2']} of the same observable got {io['out2']}, a fresh observable "
+                f"subscribed alone at that instant gets {io['solo2']}")
+    return None
+
+
+def gen_sub2(rng, msgs, p=0.25):
+    """instant of an optional second subscription: overlapping the first (between / at element times) or after it"""
+    if rng.random() >= p:
+        return None
+    ts = [t for t, _ in msgs]
+    return rng.choice([SUB + 3, SUB + 10, SUB + 30] + [t for t in ts if t > SUB] + [t + 1 for t in ts if t >= SUB] + [max(ts + [SUB]) + 40])
 
 
 def model_out(case, resp, check_spec=True):
@@ -194,6 +255,10 @@ def model_out(case, resp, check_spec=True):
     if isinstance(resp, dict) and "run" in resp:
         if check_spec and "spec" in resp and fw.key(resp["run"]) != fw.key(resp["spec"]):
             return {"model run and spec differ": resp}
+        if "run2" in resp:
+            if check_spec and fw.key(resp["run2"]) != fw.key(resp["spec2"]):
+                return {"model run and spec differ (second subscription)": resp}
+            return {"out": resp["run"], "out2": resp["run2"]}
         return resp["run"]
     return resp
 
@@ -210,9 +275,7 @@ def shape(case, io):
     yield f"{case['op']}:n={min(sum(1 for _, n in m if n[0] == 'N'), 5)}"
 
 
-def run_hist(case, build):
-    """The same experiment on HistoricalScheduler (datetime clock, tick = 1 s): hot/cold test observable over the datetime
-    scheduler, created at 100 s, subscribed at 200 s, disposed at 1000 s; times reported in whole seconds."""
+def _run_hist_once(case, build, subs_at):
     from reactivex.notification import OnCompleted, OnError, OnNext
     from reactivex.scheduler import HistoricalScheduler
     from reactivex.testing.coldobservable import ColdObservable
@@ -231,8 +294,9 @@ def run_hist(case, build):
 
     recs = [Recorded(timedelta(seconds=t) if cold else utc(t), note(n)) for t, n in case["msgs"]]
     xs = (ColdObservable if cold else HotObservable)(sched, recs)
-    out = []
+    outs = [[] for _ in subs_at]
     box = {}
+    disps = []
 
     def secs():
         return int(sched.to_seconds(sched.now))
@@ -240,16 +304,20 @@ def run_hist(case, build):
     def do_create(s, st):
         box["o"] = build(sched, xs)
 
-    def do_sub(s, st):
-        box["d"] = box["o"].subscribe(lambda v: out.append([secs(), ["N", enc(v)]]),
-                                      lambda e: out.append([secs(), ["E", fw.err_name(e)]]),
-                                      lambda: out.append([secs(), ["C"]]), scheduler=sched)
+    def mk_sub(out):
+        def act(s, st):
+            disps.append(box["o"].subscribe(lambda v: out.append([secs(), ["N", enc(v)]]),
+                                            lambda e: out.append([secs(), ["E", fw.err_name(e)]]),
+                                            lambda: out.append([secs(), ["C"]]), scheduler=sched))
+        return act
 
     def do_dispose(s, st):
-        box["d"].dispose()
+        for d in disps:
+            d.dispose()
 
     sched.schedule_absolute(utc(100), do_create)
-    sched.schedule_absolute(utc(SUB), do_sub)
+    for t, out in zip(subs_at, outs):
+        sched.schedule_absolute(utc(t), mk_sub(out))
     sched.schedule_absolute(utc(STOP), do_dispose)
     try:
         with guard():
@@ -266,7 +334,22 @@ def run_hist(case, build):
             return None if x >= 9223372036854775807 else int(x)
         return int(sched.to_seconds(x))
 
-    return {"out": out, "subs": [[[sec(s.subscribe), sec(s.unsubscribe)] for s in xs.subscriptions]]}
+    return {"outs": outs, "subs": [[[sec(s.subscribe), sec(s.unsubscribe)] for s in xs.subscriptions]]}
+
+
+def run_hist(case, build):
+    """The same experiment on HistoricalScheduler (datetime clock, tick = 1 s): hot/cold test observable over the datetime
+    scheduler, created at 100 s, subscribed at 200 s (and again at case["sub2"]), disposed at 1000 s; times in whole seconds."""
+    t2 = case.get("sub2")
+    r = _run_hist_once(case, build, [SUB] + ([t2] if t2 is not None else []))
+    if "raised" in r:
+        return r
+    res = {"out": r["outs"][0], "subs": r["subs"]}
+    if t2 is not None:
+        res["out2"] = r["outs"][1]
+        solo = _run_hist_once(case, build, [t2])
+        res["solo2"] = solo["outs"][0] if "outs" in solo else solo
+    return res
 
 
 # ----------------------------------------------------------------------------------- *_with_mapper helpers
@@ -288,8 +371,20 @@ def gen_inner(rng, d):
     return [[r, ["N", 0]], [r, ["N", 1]], [r + 2, ["C"]]]
 
 
-def gen_inners(rng, d):
-    return [gen_inner(rng, d) for _ in range(rng.choice([1, 2, 3, 3]))]
+INLINE = {"B": [["N", 0]], "CS": [["C"]], "EI": [["C"]], "ES": [["E", "inlineErr"]], "RI": [["N", 0], ["C"]]}
+# "RI" = return_value() on ImmediateScheduler: emits AND completes inside subscribe.  On the current tree delay_with_mapper then
+# delivers the element twice (fixes/C15_delay_with_mapper_inline_twice.patch; the model ignores the second signal).  Generated
+# only once that fix is in /repo: set to True then.
+GEN_INLINE_BOTH = True
+
+
+def gen_inners(rng, d, inline=0.2):
+    """timelines of the observables a mapper returns; with probability `inline` one that signals synchronously inside
+    subscribe: {"inline": "B"} BehaviorSubject (element), "CS" already-completed Subject, "EI" empty() on ImmediateScheduler,
+    "ES" already-failed Subject"""
+    kinds = ["B", "B", "CS", "EI", "ES"] + (["RI", "RI"] if GEN_INLINE_BOTH else [])
+    return [({"inline": rng.choice(kinds)} if rng.random() < inline else gen_inner(rng, d))
+            for _ in range(rng.choice([1, 2, 3, 3]))]
 
 
 def inner_of(inners, k):
@@ -309,6 +404,23 @@ def make_mapper(sched, case, off=0):
         if case.get("raise_at") is not None and k == case["raise_at"]:
             raise InjectedError("mapErr")
         tl = inner_of(case["inners"], k + off)
+        if isinstance(tl, dict):
+            from reactivex.scheduler import ImmediateScheduler
+            from reactivex.subject import BehaviorSubject, Subject
+
+            kind = tl["inline"]
+            if kind == "B":
+                return BehaviorSubject(0)
+            if kind == "EI":
+                return reactivex.empty(scheduler=ImmediateScheduler.singleton())
+            if kind == "RI":
+                return reactivex.return_value(0, scheduler=ImmediateScheduler.singleton())
+            sj = Subject()
+            if kind == "CS":
+                sj.on_completed()
+            else:
+                sj.on_error(InjectedError("inlineErr"))
+            return sj
         return sched.create_cold_observable(recorded(tl)) if tl else reactivex.never()
 
     return mapper
@@ -330,11 +442,29 @@ def merged_events(streams):
 
 
 def elem_streams(src_seen, inners, off=0):
-    """for every source element (ordinal k, arriving at t) the events of its inner observable (index k+off)"""
+    """for every source element (ordinal k, arriving at t) the events of its inner observable (index k+off), if that is a
+    scheduled (cold) observable; inline ones are part of `src_stream`"""
     out = []
     k = 0
     for t, n in src_seen:
         if n[0] == "N":
-            out.append([[t + r, ("inner", k + off, m)] for r, m in conform(inner_of(inners, k + off))])
+            tl = inner_of(inners, k + off)
+            if not isinstance(tl, dict):
+                out.append([[t + r, ("inner", k + off, m)] for r, m in conform(tl)])
+            k += 1
+    return out
+
+
+def src_stream(src_seen, inners, off=0):
+    """the source's events; an inner observable that signals synchronously inside subscribe does so right after the
+    element it was created for (before anything else queued for that instant)"""
+    out = []
+    k = 0
+    for t, n in src_seen:
+        out.append([t, ("src", n)])
+        if n[0] == "N":
+            tl = inner_of(inners, k + off)
+            if isinstance(tl, dict):
+                out += [[t, ("inner", k + off, m)] for m in INLINE[tl["inline"]]]
             k += 1
     return out
